@@ -26,18 +26,32 @@ func VH_C12_maybeDeflate() {
 		}
 		return errVHDecode
 	}
+	if vFlag("earlier-message") {
+		// the same process handled another message before (any outcome): this one is judged on its own
+		raw0 := vBlob("raw0")
+		vAssume(vAnd(vInflatedLen(raw0) >= 0, vInflatedLen(raw0) <= 1<<26))
+		err0 := maybeDeflate(raw0, limit, func(b []byte) error {
+			if vDecodeOK(b) {
+				return nil
+			}
+			return errVHDecode
+		})
+		vDebugErr("earlier", err0)
+	}
 	vMemMark()
+	readAllsBefore := vReadAllCalls()
 	err := maybeDeflate(raw, limit, dec)
 
 	eff := vIteI(limit == 0, 5*1024*1024, limit)
 	if vDecodeOK(raw) {
 		vReach("raw-accepted", true)
-		vAssert("C12.raw-accepted-without-inflating", vAnd(err == nil, vAnd(calls == 1, vReadAllCalls() == 0)))
+		vAssert("C12.raw-accepted-without-inflating", vAnd(err == nil, vAnd(calls == 1, vReadAllCalls() == readAllsBefore)))
 		return
 	}
 	vAssert("C12.inflater-always-limited", vNot(vReadAllUnlimited()))
-	vAssertModel("C12.materialised-at-most-limit-plus-one", vMaterialised()-1 <= eff)
+	// (the coarse bound first: it is the one a native replay can observe; a failed assertion is assumed to hold afterwards)
 	vAssert("C12.materialised-within-8x-limit", vOr(eff > 1<<23, vMaterialised() <= 8*(eff+1)+(1<<20)))
+	vAssertModel("C12.materialised-at-most-limit-plus-one", vMaterialised()-1 <= eff)
 	expectOK := vAnd(vNot(vInflateErr(raw)), vAnd(T <= eff, vInflatedDecodeOK(raw)))
 	if err == nil {
 		vReach("inflated-accepted", true)
